@@ -16,6 +16,32 @@ ANCHOR_FILES = ["include/iora/network/transport_impl.hpp", "include/iora/network
 OBLIGATIONS = [
     {"id": "C04_skel", "theorem": "Iora.C04.skeleton_conforms", "kind": "proved",
      "statement": "connectSync holds syncMutex from before engine->connect into the wait, has exactly one unlock window containing only engine->close, marks abandoned before it; the handlers complete the waiter under the lock (decide over the regenerated skeleton)"},
+    {"id": "C04_T1", "theorem": "Iora.C04.T1_ok_is_live", "kind": "proved",
+     "statement": "every schedule: ret ok sid only for the session this call created, after the onConnect handler delivered it, and never for a session any connectSync issued engine->close for"},
+    {"id": "C04_T2_connect", "theorem": "Iora.C04.T2_no_global_connect", "kind": "proved",
+     "statement": "every schedule: the global connect callback never fires for a connectSync-created session"},
+    {"id": "C04_T2_close", "theorem": "Iora.C04.T2_global_close_only_for_handed_out", "kind": "proved",
+     "statement": "every schedule: a global close for a connectSync-created session implies its completion was delivered and the creating call returns nothing but ok sid (true after the F16 repair)"},
+    {"id": "C04_T3", "theorem": "Iora.C04.T3_timeout_closes", "kind": "proved",
+     "statement": "every Timeout return is preceded by this call's engine->close(sid)"},
+    {"id": "C04_T3_fifo", "theorem": "Iora.C04.T3_nothing_left_open", "kind": "proved",
+     "statement": "once the engine FIFO is drained, a session for which engine->close was issued is closed (Connect is processed before Close)"},
+    {"id": "C04_T4", "theorem": "Iora.C04.T4_register_before_completion", "kind": "proved",
+     "statement": "no schedule runs the onConnect critical section of a connectSync-created session before it is registered in pendingConnects"},
+    {"id": "C04_T5_wake", "theorem": "Iora.C04.T5_no_lost_wakeup", "kind": "proved",
+     "statement": "a caller asleep with its predicate true (completion delivered or fence set) has a notify on its way, in every reachable state"},
+    {"id": "C04_T5_bound", "theorem": "Iora.C04.T5_step_bound", "kind": "partial",
+     "statement": "from any state with the mutex free a parked caller that takes its timeout returns within 3 of its own steps (the wall-clock slack of 'timeout + bounded slack' is NOT proved)"},
+    {"id": "C04_T5_lock", "theorem": "Iora.C04.T5_lock_released", "kind": "proved",
+     "statement": "a caller holding syncMutex releases it within 3 of its own steps"},
+    {"id": "C04_T5_fence", "theorem": "Iora.C04.T5_fence_rejects", "kind": "proved",
+     "statement": "a connectSync that acquires the mutex after the fence returns ShuttingDown without calling the engine"},
+    {"id": "C04_T6_ok", "theorem": "Iora.C04.T6_wrapper_ok", "kind": "proved",
+     "statement": "connectSyncCancellable returns ok sid only if its last sub-attempt returned ok sid, never for a sub-attempt it abandoned"},
+    {"id": "C04_T6_cancel", "theorem": "Iora.C04.T6_cancelled_only_if_cancelled", "kind": "proved",
+     "statement": "it returns Cancelled only if the token was cancelled"},
+    {"id": "C04_T6_pre", "theorem": "Iora.C04.T6_precancelled", "kind": "proved",
+     "statement": "entered with a cancelled token it returns Cancelled without touching the engine"},
 ]
 
 
@@ -322,7 +348,7 @@ def run(ctx: Ctx):
     if ok_build:
         ctx.audit(MODULES, OBLIGATIONS)
         if not quick:
-            ctx.leanchecker(MODULES + ["IoraModel.Lemmas.ConnectSync", "IoraModel.Model.ConnectSync", "IoraModel.Model.TsyncFacts", "IoraModel.Gen.TsyncSkel"])
+            ctx.leanchecker(MODULES + ["IoraModel.Lemmas.ConnectSync", "IoraModel.Lemmas.ConnectSyncBase", "IoraModel.Lemmas.ConnectSyncA", "IoraModel.Lemmas.ConnectSyncB", "IoraModel.Lemmas.ConnectSyncC", "IoraModel.Lemmas.ConnectSyncD", "IoraModel.Lemmas.ConnectSyncE", "IoraModel.Lemmas.ConnectSyncF", "IoraModel.Model.ConnectSync", "IoraModel.Model.TsyncFacts", "IoraModel.Gen.TsyncSkel"])
     else:
         ctx.cov["obligations"] = len(OBLIGATIONS)
     hb = ctx.build_harness("harness/c04_connectsync.cpp", sanitize=True, flags=[DETSCHED])
